@@ -45,6 +45,7 @@ def pinned_c03():
         ("C03-type-vs-subpackage-module", definition([obj("Foo", P, [field("a", S)]), obj("Inner", P + ".foo", [field("b", S)])])),
         ("C03-set-of-collection-with-double", definition([obj("Grid", P, [field("rows", set_(lst(prim("DOUBLE")))), field("maybe", set_(opt(prim("DOUBLE"))))])])),
         ("C03-type-named-option-with-double", definition([obj("Option", P, [field("x", prim("DOUBLE"))]), alias("Some", P + ".other", prim("DOUBLE"))])),
+        ("C03-safe-binary-body", definition([alias("Blob", P, prim("BINARY"), "SAFE")], [service("BlobService", P, [endpoint("upload", "POST", "/blob/up", [arg("data", ref("Blob", P), "body")])])])),
         ("C03-type-named-option-without-double", definition([obj("Option", P, [field("x", opt(S))]), union("Some", P, [field("a", S)]), enum("None", P, ["A"])])),
         # witnesses of fixed findings stay in the workload as ordinary judged cases
         ("C03-type-named-box-recursive", definition([obj("Leaf", P, [field("a", S)]), union("Box", P + ".other", [field("x", prim("INTEGER")), field("y", opt(ref("Leaf", P)))]),
@@ -280,6 +281,14 @@ def wire_stage(prop, tier, seed, replay):
                     cid += 1
                     cases.append({"id": cid, "ty": d.name, "op": "de", "doc": doc})
                     info[cid] = (d, None, cls, doc)
+                    if d.kind == "enum":
+                        # the same value through the other parser of the type (FromStr / FromPlain: path, query, header parameters)
+                        cid += 1
+                        cases.append({"id": cid, "ty": d.name, "op": "plain", "doc": doc})
+                        info[cid] = (d, None, cls.replace("unknown/", "plain/"), doc)
+                        cid += 1
+                        cases.append({"id": cid, "ty": d.name, "op": "plain-text", "doc": json.loads(doc)})
+                        info[cid] = (d, None, cls.replace("unknown/", "plain-text/"), doc)
         results = lab.run_lab(res, name, cases)
         if "__crash__" in results:
             rep["violations"].append(violation("wire", cs, "lab-crashed", {"config": cfg, "crash": results["__crash__"]}))
@@ -287,6 +296,12 @@ def wire_stage(prop, tier, seed, replay):
         c.exhaustive = cfg["exhaustive"]
         for cid, (d, v, cls, doc) in info.items():
             out = results.get(cid)
+            if cls.startswith("plain/"):
+                judge_plain_enum(rep, distinct, cs, cfg, d, cls, doc, out)
+                continue
+            if cls.startswith("plain-text/"):
+                judge_plain_text_enum(rep, distinct, cs, cfg, d, cls, doc, out)
+                continue
             if prop == "C10" and v is not None and value_has_unknown_variant(v):
                 continue   # drawn with the non-exhaustive model; not a listed value
             judge_wire(prop, rep, distinct, c, g, cs, cfg, d, v, cls, doc, out)
@@ -306,6 +321,60 @@ def wire_stage(prop, tier, seed, replay):
         rep["floors"]["case-classes"] = [need, len([k for k in rep["matrix"] if k.startswith("class/")])]
     rep["violations"] = rep["violations"][:150]
     return rep
+
+
+def judge_plain_enum(rep, distinct, cs, cfg, d, cls, doc, out):
+    """C10 through the text parser of a generated enum: the value parsed from JSON, printed as PLAIN text and parsed back
+    must be the same value (so a listed value is itself, never Unknown, and an unlisted one survives unless exhaustive)."""
+    rep["evaluations"] += 1
+    rep["matrix"]["class/" + cls] = rep["matrix"].get("class/" + cls, 0) + 1
+    distinct.add(fnv("%s|%s" % (cls, cfg["exhaustive"])))
+    out = out or {}
+    det = {"type": d.name, "class": cls, "document": doc, "config": cfg, "observed": json.dumps(out)[:300]}
+    def fail(sig):
+        rep["violations"].append(violation("wire", cs, sig, det))
+    if "panic" in out or not out:
+        return fail("panic-or-missing:" + cls)
+    want = json.loads(doc)
+    listed = cls == "plain/listed-enum-value"
+    if "parse_error" in out:
+        # the JSON side rejected the document: only legitimate for unlisted values in exhaustive mode (judged by the JSON cases)
+        if listed or not cfg["exhaustive"]:
+            fail("plain:json-side-rejected:" + cls)
+        return
+    if out.get("text") != want:
+        return fail("plain:text-is-not-the-wire-name:" + ("listed" if listed else "unlisted"))
+    if out.get("roundtrip_equal") is not True:
+        return fail("plain:%s-value-%s" % ("listed" if listed else "unlisted", "classified-differently-by-the-text-parser" if "from_plain_error" not in out else "rejected-by-the-text-parser"))
+
+
+def judge_plain_text_enum(rep, distinct, cs, cfg, d, cls, doc, out):
+    """C10 through FromPlain alone: listed names are accepted as themselves in every configuration; unlisted well-formed
+    names are accepted as Unknown (and print / serialize as the same name) by default and rejected when exhaustive."""
+    rep["evaluations"] += 1
+    rep["matrix"]["class/" + cls] = rep["matrix"].get("class/" + cls, 0) + 1
+    distinct.add(fnv("%s|%s" % (cls, cfg["exhaustive"])))
+    out = out or {}
+    name = json.loads(doc)
+    det = {"type": d.name, "class": cls, "text": name, "config": cfg, "observed": json.dumps(out)[:300]}
+    def fail(sig):
+        rep["violations"].append(violation("wire", cs, sig, det))
+    if "panic" in out or not out:
+        return fail("panic-or-missing:" + cls)
+    listed = cls == "plain-text/listed-enum-value"
+    if not listed and cfg["exhaustive"]:
+        if "ok" in out:
+            fail("plain-text:exhaustive-accepted-unlisted")
+        return
+    if "ok" not in out:
+        return fail("plain-text:%s-rejected" % ("listed" if listed else "unlisted"))
+    if json.loads(out["ok"]) != name or out.get("text") != name:
+        return fail("plain-text:%s-not-roundtripped" % ("listed" if listed else "unlisted"))
+    unknown = out.get("debug_head", "").startswith("Unknown")
+    if listed and unknown:
+        return fail("plain-text:listed-value-classified-unknown")
+    if not listed and not unknown:
+        return fail("plain-text:unlisted-not-exposed-as-unknown")
 
 
 def judge_wire(prop, rep, distinct, c, g, cs, cfg, d, v, cls, doc, out):
@@ -501,6 +570,13 @@ def typed_labs(tier, seed, tag, errors=0):
                 tries += 1
         labs.append((cs, cfg, g))
     specs = []
+    if tag == "laws":
+        # layout-sensitive shapes (found by finding C14-union-order-reads-payload-bytes) ride along in the first lab of every run
+        from gen import layout_sensitive_types
+        for (_, _, g0) in labs[:2]:        # one non-exhaustive and one exhaustive build (with / without an Unknown variant)
+            for d in layout_sensitive_types(g0.p.packages[0]):
+                g0.types.append(d)
+                g0.by_name[d.name] = d
     for i, (cs, cfg, g) in enumerate(labs):
         ir = g.ir()
         plain = [d.name for d in g.types if plain_capable(g, d)]
@@ -532,6 +608,16 @@ def plain_stage(prop, tier, seed, replay):
                 cid = len(cases) + 1
                 cases.append({"id": cid, "ty": d.name, "op": "plain", "doc": wire.render(c, v, d.ref(), wire.Style())})
                 info[cid] = (d, v)
+            # values a generated enum (or an alias of one) holds in its Unknown variant are values of the type too (default configuration)
+            base = d
+            while base.kind == "alias" and base.alias["type"] == "reference":
+                base = g.by_name[base.alias["reference"]["name"]]
+            if base.kind == "enum" and not cfg["exhaustive"]:
+                for name_ in ["ZZ_UNLISTED_7", "Q", "PURPLE"]:
+                    if name_ not in base.values:
+                        cid = len(cases) + 1
+                        cases.append({"id": cid, "ty": d.name, "op": "plain", "doc": json.dumps(name_)})
+                        info[cid] = (d, ("enum", name_))
         results = lab.run_lab(res, "plain%d" % i, cases)
         for cid, (d, v) in info.items():
             out = results.get(cid) or {}
@@ -1264,6 +1350,8 @@ def raw_stage(prop, tier, seed, replay):
                         elif how != "auth-missing":
                             headers.append((hn, prefix + "tok.en"))
                     uri = path + ("?" + "&".join("%s=%s" % (pct(k), pct(v)) for k, v in query) if query else "")
+                    if len(body) > endpoint_limit(e):
+                        continue        # a body beyond the endpoint's server-limit-request-size is refused whatever the parameters are (C06's business)
                     for flavour in ("raw-sync", "raw-async"):
                         cid = len(cases) + 1
                         cases.append({"id": cid, "ty": "%s/%s" % (sn, flavour), "op": "raw", "http_method": e["httpMethod"], "uri": uri, "headers": headers, "body": body})
